@@ -51,6 +51,8 @@ func funcMapEntry(p *packages.Package, key string) ast.Expr {
 
 func funcMapEntries(p *packages.Package) map[string]ast.Expr {
 	out := map[string]ast.Expr{}
+	inits := map[types.Object]ast.Expr{} // package-level variables -> initialiser
+	var root ast.Expr
 	for _, f := range p.Syntax {
 		for _, d := range f.Decls {
 			gd, ok := d.(*ast.GenDecl)
@@ -60,28 +62,153 @@ func funcMapEntries(p *packages.Package) map[string]ast.Expr {
 			for _, s := range gd.Specs {
 				vs := s.(*ast.ValueSpec)
 				for i, n := range vs.Names {
-					if n.Name != "FuncMap" || i >= len(vs.Values) {
-						continue
-					}
-					cl, ok := vs.Values[i].(*ast.CompositeLit)
-					if !ok {
-						continue
-					}
-					for _, el := range cl.Elts {
-						kv, ok := el.(*ast.KeyValueExpr)
-						if !ok {
-							continue
-						}
-						tv := p.TypesInfo.Types[kv.Key]
-						if tv.Value != nil && tv.Value.Kind() == constant.String {
-							out[constant.StringVal(tv.Value)] = kv.Value
+					if i < len(vs.Values) && len(vs.Values) == len(vs.Names) {
+						inits[p.TypesInfo.Defs[n]] = vs.Values[i]
+						if n.Name == "FuncMap" {
+							root = vs.Values[i]
 						}
 					}
 				}
 			}
 		}
 	}
+	dup := false
+	add := func(cl *ast.CompositeLit) {
+		for _, el := range cl.Elts {
+			kv, ok := el.(*ast.KeyValueExpr)
+			if !ok {
+				continue
+			}
+			tv := p.TypesInfo.Types[kv.Key]
+			if tv.Value != nil && tv.Value.Kind() == constant.String {
+				k := constant.StringVal(tv.Value)
+				if _, seen := out[k]; seen {
+					dup = true
+				}
+				out[k] = kv.Value
+			}
+		}
+	}
+	switch x := ast.Unparen(root).(type) {
+	case *ast.CompositeLit:
+		add(x)
+	case *ast.CallExpr:
+		// FuncMap = merge(groupA, groupB, ...): the union of the groups' literals, when merge copies
+		// every entry of every argument into a fresh map and returns it
+		fn := calleeFunc(p.TypesInfo, x)
+		if fn == nil || !isMapUnion(p, pkgFuncs(p)[fn]) {
+			return map[string]ast.Expr{}
+		}
+		for _, a := range x.Args {
+			id, ok := ast.Unparen(a).(*ast.Ident)
+			if !ok {
+				return map[string]ast.Expr{}
+			}
+			cl, ok := ast.Unparen(inits[p.TypesInfo.Uses[id]]).(*ast.CompositeLit)
+			if !ok {
+				return map[string]ast.Expr{}
+			}
+			add(cl)
+		}
+	}
+	if dup {
+		return map[string]ast.Expr{} // a key defined twice: which one wins is not decided here
+	}
 	return out
+}
+
+// isMapUnion: func(groups ...M) M { m := M{}; for _, g := range groups { maps.Copy(m, g) }; return m }
+func isMapUnion(p *packages.Package, fd *ast.FuncDecl) bool {
+	if fd == nil || fd.Recv != nil || fd.Type.Params.NumFields() != 1 || len(fd.Body.List) != 3 {
+		return false
+	}
+	info := p.TypesInfo
+	param := fd.Type.Params.List[0]
+	if _, variadic := param.Type.(*ast.Ellipsis); !variadic || len(param.Names) != 1 {
+		return false
+	}
+	as, ok := fd.Body.List[0].(*ast.AssignStmt)
+	if !ok || as.Tok != token.DEFINE || len(as.Lhs) != 1 || len(as.Rhs) != 1 {
+		return false
+	}
+	dst := info.Defs[as.Lhs[0].(*ast.Ident)]
+	switch r := ast.Unparen(as.Rhs[0]).(type) {
+	case *ast.CompositeLit:
+		if len(r.Elts) != 0 {
+			return false
+		}
+	case *ast.CallExpr:
+		if calleeName(info, r) != "builtin.make" {
+			return false
+		}
+	default:
+		return false
+	}
+	rs, ok := fd.Body.List[1].(*ast.RangeStmt)
+	if !ok || len(rs.Body.List) != 1 {
+		return false
+	}
+	if id, ok := ast.Unparen(rs.X).(*ast.Ident); !ok || info.Uses[id] != info.Defs[param.Names[0]] {
+		return false
+	}
+	val, ok := rs.Value.(*ast.Ident)
+	if !ok {
+		return false
+	}
+	es, ok := rs.Body.List[0].(*ast.ExprStmt)
+	if !ok {
+		return false
+	}
+	call, ok := es.X.(*ast.CallExpr)
+	if !ok || calleeName(info, call) != "maps.Copy" || len(call.Args) != 2 {
+		return false
+	}
+	a0, ok0 := ast.Unparen(call.Args[0]).(*ast.Ident)
+	a1, ok1 := ast.Unparen(call.Args[1]).(*ast.Ident)
+	if !ok0 || !ok1 || info.Uses[a0] != dst || info.Uses[a1] != info.Defs[val] {
+		return false
+	}
+	ret, ok := fd.Body.List[2].(*ast.ReturnStmt)
+	if !ok || len(ret.Results) != 1 {
+		return false
+	}
+	id, ok := ast.Unparen(ret.Results[0]).(*ast.Ident)
+	return ok && info.Uses[id] == dst
+}
+
+// isArgSwapper: func(f func(S, A) R) func(A, S) R { return func(a A, s S) R { return f(s, a) } }
+func isArgSwapper(p *packages.Package, fd *ast.FuncDecl) bool {
+	if fd == nil || fd.Recv != nil || fd.Type.Params.NumFields() != 1 || len(fd.Type.Params.List[0].Names) != 1 || len(fd.Body.List) != 1 {
+		return false
+	}
+	info := p.TypesInfo
+	f := info.Defs[fd.Type.Params.List[0].Names[0]]
+	rs, ok := fd.Body.List[0].(*ast.ReturnStmt)
+	if !ok || len(rs.Results) != 1 {
+		return false
+	}
+	fl, ok := ast.Unparen(rs.Results[0]).(*ast.FuncLit)
+	if !ok || len(fl.Body.List) != 1 {
+		return false
+	}
+	var ps []types.Object
+	for _, fld := range fl.Type.Params.List {
+		for _, n := range fld.Names {
+			ps = append(ps, info.Defs[n])
+		}
+	}
+	inner, ok := fl.Body.List[0].(*ast.ReturnStmt)
+	if !ok || len(inner.Results) != 1 || len(ps) != 2 {
+		return false
+	}
+	call, ok := ast.Unparen(inner.Results[0]).(*ast.CallExpr)
+	if !ok || len(call.Args) != 2 {
+		return false
+	}
+	fid, ok := ast.Unparen(call.Fun).(*ast.Ident)
+	a0, ok0 := ast.Unparen(call.Args[0]).(*ast.Ident)
+	a1, ok1 := ast.Unparen(call.Args[1]).(*ast.Ident)
+	return ok && ok0 && ok1 && info.Uses[fid] == f && info.Uses[a0] == ps[1] && info.Uses[a1] == ps[0]
 }
 
 func isNilIdent(info *types.Info, e ast.Expr) bool {
@@ -144,4 +271,101 @@ func reflectTagGet(tag, key string) string {
 		}
 	}
 	return ""
+}
+
+// indexLoop recognises both `for i := 0; i < N; i++ {..}` and `for i := range N {..}` (N an integer)
+// and returns the index variable, the bound expression and the body.
+func indexLoop(info *types.Info, s ast.Stmt) (types.Object, ast.Expr, *ast.BlockStmt, bool) {
+	switch x := s.(type) {
+	case *ast.ForStmt:
+		if iv, bound, ok := countingLoop(info, x); ok {
+			return iv, bound, x.Body, true
+		}
+	case *ast.RangeStmt:
+		if x.Value == nil && x.Key != nil {
+			if t := info.TypeOf(x.X); t != nil {
+				if b, ok := t.Underlying().(*types.Basic); ok && b.Info()&types.IsInteger != 0 {
+					if id, ok := x.Key.(*ast.Ident); ok {
+						return info.Defs[id], x.X, x.Body, true
+					}
+				}
+			}
+		}
+	}
+	return nil, nil, nil, false
+}
+
+// pkgFuncs maps the package's function objects to their declarations.
+func pkgFuncs(p *packages.Package) map[*types.Func]*ast.FuncDecl {
+	out := map[*types.Func]*ast.FuncDecl{}
+	for _, f := range p.Syntax {
+		for _, d := range f.Decls {
+			if fd, ok := d.(*ast.FuncDecl); ok && fd.Body != nil {
+				if fn, ok := p.TypesInfo.Defs[fd.Name].(*types.Func); ok {
+					out[fn] = fd
+				}
+			}
+		}
+	}
+	return out
+}
+
+// withCallees returns fd followed by the same-package functions it calls (transitively, bounded).
+func withCallees(p *packages.Package, fd *ast.FuncDecl) []*ast.FuncDecl {
+	funcs := pkgFuncs(p)
+	seen := map[*ast.FuncDecl]bool{fd: true}
+	out := []*ast.FuncDecl{fd}
+	for i := 0; i < len(out) && len(out) < 12; i++ {
+		ast.Inspect(out[i].Body, func(n ast.Node) bool {
+			if call, ok := n.(*ast.CallExpr); ok {
+				if fn := calleeFunc(p.TypesInfo, call); fn != nil {
+					if d := funcs[fn]; d != nil && !seen[d] {
+						seen[d] = true
+						out = append(out, d)
+					}
+				}
+			}
+			return true
+		})
+	}
+	return out
+}
+
+// pkgFuncDecls lists the package's function declarations with bodies in file/source order.
+func pkgFuncDecls(p *packages.Package) []*ast.FuncDecl {
+	var out []*ast.FuncDecl
+	for _, f := range p.Syntax {
+		for _, d := range f.Decls {
+			if fd, ok := d.(*ast.FuncDecl); ok && fd.Body != nil {
+				out = append(out, fd)
+			}
+		}
+	}
+	return out
+}
+
+// pkgGetters maps the package's methods whose whole body is `return <receiver>.<field>` to that field's name.
+func pkgGetters(p *packages.Package) map[*types.Func]string {
+	out := map[*types.Func]string{}
+	for fn, fd := range pkgFuncs(p) {
+		if fd.Recv == nil || len(fd.Recv.List) != 1 || len(fd.Recv.List[0].Names) != 1 || len(fd.Body.List) != 1 || fd.Type.Params.NumFields() != 0 {
+			continue
+		}
+		rs, ok := fd.Body.List[0].(*ast.ReturnStmt)
+		if !ok || len(rs.Results) != 1 {
+			continue
+		}
+		se, ok := ast.Unparen(rs.Results[0]).(*ast.SelectorExpr)
+		if !ok {
+			continue
+		}
+		id, ok := se.X.(*ast.Ident)
+		if !ok || p.TypesInfo.Uses[id] != p.TypesInfo.Defs[fd.Recv.List[0].Names[0]] {
+			continue
+		}
+		if sel := p.TypesInfo.Selections[se]; sel != nil && sel.Kind() == types.FieldVal {
+			out[fn] = se.Sel.Name
+		}
+	}
+	return out
 }
